@@ -37,6 +37,8 @@ TargetOf ==
       udpPost       |-> [method |-> "POST", target |-> "http://_udp2/"],
       connectNoPort |-> [method |-> "CONNECT", target |-> "example.org"],
       getNoHost     |-> [method |-> "GET", target |-> "/index.html"],
+      connectIpNoPort  |-> [method |-> "CONNECT", target |-> "203.0.113.7"],
+      connectIp6NoPort |-> [method |-> "CONNECT", target |-> "[2001:db8::7]"],
       upperCheck    |-> [method |-> "CONNECT", target |-> "_CHECK:443"],
       checkPort     |-> [method |-> "CONNECT", target |-> "_check:80"],
       udpSuffix     |-> [method |-> "CONNECT", target |-> "_udp2x:443"] ]
